@@ -1,5 +1,4 @@
--- imports RouterBuildComplete_proof.lean (Probe.Glue)
-import Probe.Glue
+import RouterBuildComplete_proof
 /-! Proof probe for C05: the end-to-end statements about the tree `buildFrom` returns and the matcher `edge`,
     in one vocabulary (templates as `List Sym`, instances through `Fill`). -/
 namespace Tree
